@@ -1674,10 +1674,12 @@ impl Element {
         inline: bool,
         for_file: &Option<WeakArxmlFile>,
     ) {
+        // all information about this element is taken from this one guard: locking the element again while the guard is held
+        // would deadlock as soon as a writer is waiting for the lock
         let element = self.0.read();
         let element_name = element.elemname.to_str();
 
-        if let Some(comment) = &self.0.read().comment {
+        if let Some(comment) = &element.comment {
             // put the comment on a separate line
             if !inline {
                 Self::serialize_newline_indent(outstring, indent);
@@ -1695,18 +1697,17 @@ impl Element {
         if !element.content.is_empty() {
             outstring.push('<');
             outstring.push_str(element_name);
-            self.serialize_attributes(outstring);
+            Self::serialize_attributes(&element, outstring);
             outstring.push('>');
 
-            match self.content_type() {
-                ContentType::Elements => {
+            match element.elemtype.content_mode() {
+                ContentMode::Sequence | ContentMode::Choice | ContentMode::Bag => {
                     // serialize each sub-element
-                    for subelem in self.sub_elements() {
-                        if for_file.is_none()
-                            || subelem.0.read().file_membership.is_empty()
-                            || subelem.0.read().file_membership.contains(for_file.as_ref().unwrap())
-                        {
-                            subelem.serialize_internal(outstring, indent + 1, false, for_file);
+                    for item in &element.content {
+                        if let ElementContent::Element(subelem) = item {
+                            if Self::is_in_file(subelem, for_file) {
+                                subelem.serialize_internal(outstring, indent + 1, false, for_file);
+                            }
                         }
                     }
                     // put the closing tag on a new line and indent it
@@ -1715,7 +1716,7 @@ impl Element {
                     outstring.push_str(element_name);
                     outstring.push('>');
                 }
-                ContentType::CharacterData => {
+                ContentMode::Characters => {
                     // write the character data on the same line as the opening tag
                     if let Some(ElementContent::CharacterData(chardata)) = element.content.first() {
                         chardata.serialize_internal(outstring);
@@ -1726,14 +1727,11 @@ impl Element {
                     outstring.push_str(element_name);
                     outstring.push('>');
                 }
-                ContentType::Mixed => {
-                    for item in self.content() {
+                ContentMode::Mixed => {
+                    for item in &element.content {
                         match item {
                             ElementContent::Element(subelem) => {
-                                if for_file.is_none()
-                                    || subelem.0.read().file_membership.is_empty()
-                                    || subelem.0.read().file_membership.contains(for_file.as_ref().unwrap())
-                                {
+                                if Self::is_in_file(subelem, for_file) {
                                     subelem.serialize_internal(outstring, indent + 1, true, for_file);
                                 }
                             }
@@ -1751,9 +1749,20 @@ impl Element {
         } else {
             outstring.push('<');
             outstring.push_str(element_name);
-            self.serialize_attributes(outstring);
+            Self::serialize_attributes(&element, outstring);
             outstring.push('/');
             outstring.push('>');
+        }
+    }
+
+    // should the sub element be serialized as part of the given file (or of the merged model if no file is given)
+    fn is_in_file(subelem: &Element, for_file: &Option<WeakArxmlFile>) -> bool {
+        match for_file {
+            None => true,
+            Some(file) => {
+                let locked_subelem = subelem.0.read();
+                locked_subelem.file_membership.is_empty() || locked_subelem.file_membership.contains(file)
+            }
         }
     }
 
@@ -1764,8 +1773,7 @@ impl Element {
         }
     }
 
-    fn serialize_attributes(&self, outstring: &mut String) {
-        let element = self.0.read();
+    fn serialize_attributes(element: &ElementRaw, outstring: &mut String) {
         if !element.attributes.is_empty() {
             for attribute in &element.attributes {
                 outstring.push(' ');
